@@ -255,7 +255,8 @@ pub fn generate(seed: u64, prof: &GenProfile) -> History {
                 }
                 bel[c].has_snap = bel[c].has_snap || b.len > 0;
                 // snapshot payloads are always tagged so that every upload has distinct bytes
-                let len = if prof.aligned { 24 } else if rng.pct(3) { 300_000 } else { 16 + rng.usize(120) };
+                // (a few snapshots are larger than 1 MiB and not a whole number of MiB / KiB)
+                let len = if prof.aligned { 24 } else if rng.pct(3) { *rng.pick(&[300_000usize, 300_000, 1_048_576 + 123, 2_621_563, 65_537]) } else { 16 + rng.usize(120) };
                 // after a snapshot upload that names another client's version, that client often
                 // uploads a snapshot for the very same version
                 if let IdRef::Back(o, kk) = vid {
